@@ -156,7 +156,6 @@ def build_torch():
     t.randperm = st._ext('randperm')
     t.rand = st._ext('rand'); t.randn = st._ext('randn'); t.randint = st._ext('randint')
     t.rand_like = st._ext('rand_like'); t.randn_like = st._ext('randn_like')
-    t.topk = st._ext('topk'); t.sort = st._ext('sort'); t.argsort = st._ext('argsort')
     t.cdist = st._ext('cdist'); t.searchsorted = st._ext('searchsorted')
     t.multinomial = st._ext('multinomial')
 
